@@ -254,6 +254,8 @@ func checkC02(e *RunEnv) *CheckResult {
 			steps = append(steps, Run(append([]string{"add"}, topLevel(set)...)...).WithTags(t...), Run("commit", "-m", "m").WithTags(t...))
 			cases = append(cases, Case{Base: base, BaseName: "S0", BaseSeed: seedS0(), Steps: steps})
 		}
+		// one large snapshot: 60 entries in nested directories (sorting and buffering behave differently above small sizes)
+		cases = append(cases, Case{Base: base, BaseName: "S0", BaseSeed: seedS0(), Steps: bigSnapshotSteps()})
 		// identity: every (local?, global?) x (name, e-mail) combination that is complete
 		var idc []Case
 		initOnly := x.BuildState([]Step{Run("init")})
@@ -285,4 +287,24 @@ func checkC02(e *RunEnv) *CheckResult {
 		cov["states"] = x.States + sweep
 	})
 	return res
+}
+
+// bigSnapshotSteps: 60 files over 12 directories (two levels), staged and committed, then one file
+// changed and committed again.
+func bigSnapshotSteps() []Step {
+	var steps []Step
+	var tops []string
+	for i := 0; i < 12; i++ {
+		d := fmt.Sprintf("dir%02d", i)
+		tops = append(tops, d)
+		for j := 0; j < 4; j++ {
+			p := fmt.Sprintf("%s/f%d", d, j)
+			steps = append(steps, Write(p, v1(p)))
+		}
+		p := fmt.Sprintf("%s/sub/g", d)
+		steps = append(steps, Write(p, v1(p)))
+	}
+	steps = append(steps, Run(append([]string{"add"}, tops...)...), Run("commit", "-m", "sixty entries"),
+		Write("dir05/f2", v2("dir05/f2")), Run("add", "dir05/f2"), Run("commit", "-m", "one changed"))
+	return steps
 }
